@@ -19,6 +19,8 @@ TABLE_MODEL = {'file': 'native/table_model.rs', 'attach': 'src/table.rs', 'test'
 
 PROPS['C03'] = {
     'level': 'proof',
+    # who drives the tick at peer level: PeerCrypto::every_second ticks the peer's core exactly once on EVERY return path
+    'verus': [{'unit': 'buffer', 'fns': ['PeerCrypto::every_second', 'PeerCrypto::get_core', 'PeerCrypto::encrypt_message', 'CryptoCore::encrypt']}],
     'native_search': {r'kani::core::.*': WINDOW_DRV},
     'kani': {
         'files': {'src/crypto/core.rs': ['kani/core.rs']},
@@ -39,9 +41,10 @@ PROPS['C03'] = {
         'ring::aead::LessSafeKey::open_in_place replaced by a stub returning a nondeterministic verdict (AEAD treated as an oracle); LessSafeKey values are opaque (transmuted zero bytes, never read)',
         'ring::rand::SystemRandom::fill replaced by a stub writing arbitrary bytes',
         'every nonce reaching decrypt_with_key has bytes 1..=4 zero (established by the header block of CryptoCore::decrypt, proved under C02/C04 unit coreblocks)',
+        'unit buffer: InitState::every_second, RotationState::cycle, CryptoCore::{every_second, rotate_key, algorithm} are opaque environment functions (frames only); ghost tick counter ticks(core) advanced by CryptoCore::every_second, whose effect on the four slots is the Kani obligation every_second_ticks_all_slots',
     ],
     'not_decided': [
-        'that GenericCloud calls every_second once per second for every peer (node level); "seconds" are ticks here',
+        'that GenericCloud::crypto_housekeep calls PeerCrypto::every_second once per second for every peer (loop over the peers HashMap, not typed by Verus); from PeerCrypto::every_second down to the four key slots the tick is under contract; "seconds" are ticks here',
     ],
 }
 
